@@ -73,7 +73,7 @@ fn render_case<F: Backend + RenderHints>(
     b: &Built<F>,
     w: u32,
     h: u32,
-    chain: &[usize],
+    chain: Option<&[usize]>,
     tname: &str,
     m: &Matrix3<f32>,
     z: f32,
@@ -81,7 +81,7 @@ fn render_case<F: Backend + RenderHints>(
     pool: Option<&ThreadPool>,
 ) {
     let desc = || {
-        json!({"backend": F::NAME, "shape": s.name, "size": [w, h], "tiles": chain, "transform": tname,
+        json!({"backend": F::NAME, "shape": s.name, "size": [w, h], "tiles": chain.map(|c| format!("{c:?}")).unwrap_or("backend default".into()), "transform": tname,
                "z": z, "pixel_perfect": pixel_perfect, "threads": if pool.is_some() { "pool (shim, default schedule)" } else { "none" }})
     };
     let cfg = RenderConfig {
@@ -91,7 +91,7 @@ fn render_case<F: Backend + RenderHints>(
         z,
     };
     let ecfg = EvalConfig {
-        tile_sizes: Some(TileSizes::new(chain).unwrap()),
+        tile_sizes: chain.map(|c| TileSizes::new(c).unwrap()),
         threads: pool,
         cancel: Default::default(),
     };
@@ -222,12 +222,40 @@ fn scene_unit<F: Backend + RenderHints>(cx: &mut Cx, tier: Tier, si: usize, jit_
                         }
                         cx.add("cases", 1);
                         cx.add("nontrivial", 1);
-                        render_case::<F>(cx, s, &b, w, h, &chain, tname, &m, z, pp, if threads { Some(&pool) } else { None });
+                        render_case::<F>(cx, s, &b, w, h, Some(&chain), tname, &m, z, pp, if threads { Some(&pool) } else { None });
                         if sid % 4001 == 0 {
                             cx.sample(|| json!({"backend": F::NAME, "shape": s.name, "size": [w, h], "tiles": chain, "transform": tname, "z": z, "pixel_perfect": pp, "threads": threads}));
                         }
                     }
                 }
+            }
+        }
+    }
+    // the backend's DEFAULT tile sizes (VM [128, 32, 8], JIT [128, 16]) on images
+    // larger than one root tile, with no pool, the stand-in pool and the
+    // default (global) pool
+    let global = ThreadPool::Global;
+    let big: &[(u32, u32)] = match tier {
+        Tier::Quick => &[(130, 70), (33, 257)],
+        Tier::Thorough => &[(130, 70), (33, 257), (129, 129), (256, 128), (200, 131)],
+    };
+    for &(w, h) in big {
+        for (tname, m) in transforms().into_iter().step_by(2) {
+            for (z, pp, threads) in [(0.0f32, false, 0), (0.25, true, 1), (0.0, false, 2)] {
+                let sid = sub;
+                sub += 1;
+                if !cx.case(sid) {
+                    continue;
+                }
+                cx.add("cases", 1);
+                cx.add("nontrivial", 1);
+                cx.add("default_tile_size_renders", 1);
+                let pool_ref = match threads {
+                    0 => None,
+                    1 => Some(&pool),
+                    _ => Some(&global),
+                };
+                render_case::<F>(cx, s, &b, w, h, None, tname, &m, z, pp, pool_ref);
             }
         }
     }
@@ -246,7 +274,7 @@ impl Check for C06 {
     }
     fn meta(&self, tier: Tier) -> Meta {
         Meta {
-            rule: "case = one render; full Cartesian product of 13 shapes (circle, rectangle, half-plane, union / intersection / difference, ring, a min-chain of 4 circles that simplifies differently per tile, constants +1 and -1, x*y, a z-dependent sphere slice, a shape with a free variable) x image sizes (w,h) x tile-size chains x 5 view transforms (identity, scale, translation, 90-degree rotation, anisotropic + shear) x (z, pixel-perfect, threads) in {(0,off,none),(0.25,off,pool),(0,on,none),(0.25,on,pool)} x backend {VM, JIT}; oracle: for every pixel (i,j) the f64 value of the program at cfg.mat()*(i,j,1): decidable pixels (|v| > 2e-5*(1+largest intermediate)) must satisfy inside() <=> v < 0; in pixel-perfect mode every pixel must be a Value within 2e-4*(1+magnitude) of v; image dimensions must equal the request; non-trivial = every render".into(),
+            rule: "case = one render; full Cartesian product of 13 shapes (circle, rectangle, half-plane, union / intersection / difference, ring, a min-chain of 4 circles that simplifies differently per tile, constants +1 and -1, x*y, a z-dependent sphere slice, a shape with a free variable) x image sizes (w,h) x tile-size chains x 5 view transforms (identity, scale, translation, 90-degree rotation, anisotropic + shear) x (z, pixel-perfect, threads) in {(0,off,none),(0.25,off,pool),(0,on,none),(0.25,on,pool)} x backend {VM, JIT}; plus every shape with the backend's DEFAULT tile sizes on images larger than one root tile (130x70, 33x257; thorough also 129x129, 256x128, 200x131) with no pool / stand-in pool / ThreadPool::Global; oracle: for every pixel (i,j) the f64 value of the program at cfg.mat()*(i,j,1): decidable pixels (|v| > 2e-5*(1+largest intermediate)) must satisfy inside() <=> v < 0; in pixel-perfect mode every pixel must be a Value within 2e-4*(1+magnitude) of v; image dimensions must equal the request; non-trivial = every render".into(),
             bounds: match tier {
                 Tier::Quick => "sizes {1,3,4,5,8,9,17}^2, tile chains [4],[8,4],[8,2],[16,4]; JIT on every other size pair".into(),
                 Tier::Thorough => "sizes {1,2,3,4,5,7,8,9,15,16,17,20,33}^2, all 15 valid chains over {16,8,4,2}".into(),
@@ -256,7 +284,7 @@ impl Check for C06 {
                 "render crashes are deferred to C11".into(),
             ],
             crash_policy: CrashPolicy::Deferred,
-            vacuity: vec![("pixels_checked", 100000)],
+            vacuity: vec![("pixels_checked", 100000), ("default_tile_size_renders", 100)],
             transitions_counter: "evals",
             nontrivial_counter: "nontrivial",
             exhaustive: true,
